@@ -11,6 +11,7 @@ import itertools
 from typing import Any, List
 
 from mc import codec
+from mc.report import guard_harness as _guard
 from mc.report import add_sample, add_violation, count, new_part
 from props.c01 import representatives
 
@@ -37,6 +38,7 @@ def check_instr(flav: str, mn: str, lv, part, classes=None) -> None:
     try:
         sub = parse_text_subroutine(HEADER + text + "\n", flavour=codec.flavour(flav))
     except Exception as exc:
+        _guard(exc)
         add_violation(part, f"unparsable/{flav}/{mn}", f"{flav}: printed {mn!r} instruction does not parse: "
                       f"{type(exc).__name__}: {exc}", case)
         return
@@ -89,6 +91,7 @@ def check_sequence(flav: str, seq, part) -> None:
         text2 = HEADER + "".join(str(i) + "\n" for i in dec.instructions)
         sub2 = parse_text_subroutine(text2, flavour=f)
     except Exception as exc:
+        _guard(exc)
         add_violation(part, f"sequence-raises/{flav}", f"text->binary->text raised {type(exc).__name__}: {exc}", case)
         return
     if sub1.instructions != instrs:
@@ -134,6 +137,7 @@ def shard_coexist(shard):
                 try:
                     got = parse_text_subroutine(HEADER + str(instr) + "\n", flavour=inst).instructions
                 except Exception as exc:
+                    _guard(exc)
                     add_violation(part, f"coexist-unparsable/{name}", f"{type(exc).__name__}: {exc}", case)
                     continue
                 if len(got) != 1 or type(got[0]) is not cls or got[0] != instr:
@@ -206,6 +210,7 @@ def shard_history(shard):
                                   "parse in place changes the result of another parse of the same text", case,
                                   {"text": text, "second": str(two[0]), "third": str(three[0])})
         except Exception as exc:
+            _guard(exc)
             add_violation(part, f"history-raises/{flav}/{cls.mnemonic}", f"{type(exc).__name__}: {exc}", case)
     count(part, f"histories/{flav}")
     return part
